@@ -87,6 +87,12 @@ def write_fuzz_seeds(d):
         if i < 4:
             for codec in ("gzip", "xz", "zstd", "bzip2"):
                 put(1, 4, c15.compress(codec, a, 3))
+    # members with several extension records of mixed kinds (no archiver writes these; the reader has to cope)
+    sa = sample_archives()
+    for i in (0, 3, 4):
+        for v in range(len(_meta_samples())):
+            for fr in (0.0, 0.5, 0.99):
+                put(0, (i + v) % 8, apply_edits(sa[i], [("mrec", fr, 1000 + v, 8)]))
     put(2, 5, VALID_PACK)
     put(2, 0, VALID_PACK)
     put(0x12, 3, VALID_PACK)
@@ -116,7 +122,7 @@ def cli_cases(draw, tier="quick"):
         case["archive"] = ar
         case["codec"] = draw(st.sampled_from([None, None, None, "gzip", "xz", "zstd", "bzip2"]))
         if what == "damage":
-            case["edits"] = draw(st.lists(st.tuples(st.sampled_from(["flip", "zero", "ff", "splice", "dup", "del", "num"]), st.floats(0, 1), st.integers(0, 255),
+            case["edits"] = draw(st.lists(st.tuples(st.sampled_from(["flip", "zero", "ff", "splice", "dup", "del", "num", "mrec", "mrec", "mswap"]), st.floats(0, 1), st.integers(0, 255),
                                                      st.integers(1, 64)), min_size=1, max_size=4))
         else:
             case["cut"] = draw(st.floats(0, 1))
@@ -133,6 +139,46 @@ def cli_cases(draw, tier="quick"):
     return case
 
 
+def _tar_groups(b):
+    """(offset, length, typeflag) of every header + payload in an uncompressed tar stream (best effort)"""
+    out = []
+    pos = 0
+    while pos + 512 <= len(b):
+        h = bytes(b[pos:pos + 512])
+        if not any(h):
+            break
+        try:
+            size = int(h[124:136].rstrip(b" \0") or b"0", 8)
+        except ValueError:
+            break
+        ln = 512 + (size + 511) // 512 * 512
+        out.append((pos, min(ln, len(b) - pos), h[156:157]))
+        pos += ln
+    return out
+
+
+_META = None
+
+
+def _meta_samples():
+    """stand-alone extension records: GNU long name, GNU long link, PAX header without a path, PAX header with a path, global PAX"""
+    global _META
+    if _META is None:
+        f = lambda name, **kw: dict(dict(name=name, type="file", mode=0o644, uid=1, gid=2, mtime=3, xattrs={}, data=b"", enc=dict(fmt="ustar")), **kw)
+        ars = [tarimg.encode_archive([f(b"L" * 130, enc=dict(fmt="gnu", longname="gnu"))]),
+               tarimg.encode_archive([dict(name=b"s", type="slink", mode=0o777, uid=0, gid=0, mtime=1, xattrs={}, linkname=b"K" * 130, enc=dict(fmt="gnu", longname="gnu"))]),
+               tarimg.encode_archive([f(b"m", enc=dict(fmt="ustar", pax_mtime=True))]),
+               tarimg.encode_archive([f(b"P" * 130, enc=dict(fmt="ustar", longname="pax"))]),
+               tarimg.encode_archive([f(b"x", xattrs={b"user.a": b"b"})]),
+               tarimg.encode_archive([f(b"g")], global_pax=True)]
+        _META = []
+        for a in ars:
+            for off, ln, tf in _tar_groups(a):
+                if tf in (b"L", b"K", b"x", b"g"):
+                    _META.append(bytes(a[off:off + ln]))
+    return _META
+
+
 def apply_edits(data, edits):
     b = bytearray(data)
     for e in edits:
@@ -140,6 +186,26 @@ def apply_edits(data, edits):
         n = e[3] if len(e) > 3 else 8
         if not b:
             break
+        if kind == "mrec":
+            # record level: an extension record (of this archive or a stock one) is inserted in front of some member's records -
+            # members end up with two or more extension records of mixed kinds
+            gr = _tar_groups(b)
+            if not gr:
+                continue
+            own = [bytes(b[o:o + l]) for o, l, tf in gr if tf in (b"L", b"K", b"x", b"g")]
+            pool = own + _meta_samples()
+            src = pool[val % len(pool)]
+            dst = gr[min(len(gr) - 1, int(frac * len(gr)))][0]
+            b[dst:dst] = src
+            continue
+        if kind == "mswap":
+            gr = _tar_groups(b)
+            if len(gr) < 2:
+                continue
+            i = min(len(gr) - 2, int(frac * (len(gr) - 1)))
+            (o1, l1, _), (o2, l2, _) = gr[i], gr[i + 1]
+            b[o1:o2 + l2] = bytes(b[o2:o2 + l2]) + bytes(b[o1:o1 + l1])
+            continue
         pos = min(len(b) - 1, int(frac * len(b)))
         if kind == "flip":
             b[pos] ^= (val or 1)
@@ -244,12 +310,15 @@ def check_case(case, opts):
                 plain = tarimg.encode_archive(ar["entries"], ar["end_marker"], ar["global_pax"], ar["trailing_pad"])
             except OverflowError:
                 raise Inconclusive("generator")
+            if what == "damage":
+                # record level edits work on the tar stream itself, byte level ones on what goes over the wire
+                plain = bytes(apply_edits(plain, [e for e in case["edits"] if e[0] in ("mrec", "mswap")]))
             wire = c15.compress(case["codec"], plain, 4) if case["codec"] else plain
             if what == "trunc":
                 bad = wire[:int(case["cut"] * len(wire))]
                 desc = "archive (%s) truncated at %d of %d bytes" % (case["codec"] or "plain", len(bad), len(wire))
             else:
-                bad = apply_edits(wire, case["edits"])
+                bad = apply_edits(wire, [e for e in case["edits"] if e[0] not in ("mrec", "mswap")])
                 desc = "archive (%s) damaged by %s" % (case["codec"] or "plain", ",".join(e[0] for e in case["edits"]))
             r = vcommon.run([t2s, "-q", "-c", "gzip", "-b", "4096", out], stdin=bad, timeout=30)
             img = judge(r, out, "tar2sqfs on " + desc)
